@@ -20,3 +20,4 @@ def check(rep, tier):
     rep.run(_rs.run_fft, rep, tier)         # E3 over autograd/numpy/fft.py: symbolic array sizes and transform lengths
     rep.run(_rs.run_scipy_special, rep, tier)   # E3 over autograd/scipy/special.py: broadcasting argument patterns, logsumexp axis forms
     rep.run(_rs.run_elementwise_modules, rep, tier)   # E3 over autograd/scipy/stats/*.py (element-wise distributions): broadcasting argument patterns
+    _rs.report_diag(rep)
